@@ -178,7 +178,8 @@ def run(tier, seed):
         projects.append(("params-" + conv, {"src/lib.rs": psrc}, {"default_parameter_case": conv, "default_field_case": conv}))
         projects.append(("feature-" + conv, {"src/lib.rs": c10.FEATURE_SRC}, {"default_parameter_case": conv, "default_field_case": conv}))
     # 5. type expressions at every site, with type-mapping targets
-    types, _, _, _, _ = typecases.generate_types(tier, seed, d, cfg="Gen_Types_d1" if tier == "quick" else "Gen_Types_d2", simulate=False, min_cases=50)
+    # quick: every constructor over every leaf class, every constructor pair over the string and the project-type leaf
+    types, _, _, _, _ = typecases.generate_types(tier, seed, d, cfg="Gen_Types_d1x" if tier == "quick" else "Gen_Types_d2", simulate=False, min_cases=50)
     named = [(i, rustgen.name_leaves(t)[0]) for i, t in enumerate(types)]
     for bi in range(0, len(named), 100):
         tsrc, _ = rustgen.types_project(named[bi:bi + 100])
